@@ -210,7 +210,12 @@ class FnCtx:
                         outs = [v for v, t in ce.arms if t == s]
                         if s == ce.otherwise:
                             outs.append("otherwise")
-                    if any(guard_pred(e, o, ce) for o in outs) and len(outs) == 1:
+                            # two-variant scrutinee (Option / Result / bool-like) with one explicit arm:
+                            # the otherwise edge is the other variant
+                            if len(ce.arms) == 1 and ce.arms[0][0] in (0, 1) and ce.arms[0][1] != s:
+                                outs.append(1 - ce.arms[0][0])
+                    ambiguous = tt is not None and tt == ft
+                    if not ambiguous and any(guard_pred(e, o, ce) for o in outs):
                         continue
                 ns = (s, tuple(sorted(tg.items())))
                 if ns not in prev:
